@@ -41,7 +41,6 @@ func ReadArguments(reader io.Reader) (args []string, eof bool, err error) {
 			continue
 		} else if !isEscaped && ch == '\\' {
 			isEscaped = true
-			isSeparated = false
 			continue
 		}
 		if isSeparated {
@@ -60,7 +59,7 @@ func ReadArguments(reader io.Reader) (args []string, eof bool, err error) {
 				if ch == '\\' {
 					isEscaped = true
 				} else {
-					*current += string(ch)
+					*current += string(buf[:1])
 					isEscaped = false
 				}
 			}
@@ -99,7 +98,7 @@ func ReadArguments(reader io.Reader) (args []string, eof bool, err error) {
 				if _, err = reader.Read(buf); err != nil {
 					return nil, err == io.EOF, goaterr.Errorf(err.Error())
 				}
-				value += string(buf[0])
+				value += string(buf[:1])
 				if strings.HasSuffix(value, eof) {
 					value = value[:len(value)-len(eof)]
 					break
@@ -109,7 +108,7 @@ func ReadArguments(reader io.Reader) (args []string, eof bool, err error) {
 			args[len(args)-1] = value
 			continue
 		}
-		*current += string(ch)
+		*current += string(buf[:1])
 		isEscaped = false
 		isSeparated = false
 	}
